@@ -25,6 +25,7 @@ EXPLANATION = (
     "Later rounds added: "
     "(KEEP) the writer never deletes an entry path; (READER presence) an entry is present "
     "iff the memory layer or the entry file says so. "
+    'Round 7: (ATOMIC own-temp) the temporary is named, inside the writing function, after process and thread (or a random token); copying routines write their destination in place. '
 )
 ASSUMPTIONS = (
     "POSIX rename atomicity within one directory/filesystem",
